@@ -14,11 +14,11 @@ import (
 // Role-based anchors of the graph walker (internal/dag).
 type walkerInfo struct {
 	Walker       *types.Named
-	Walk         *ssa.Function     // spawns one routine per node
-	Routine      *ssa.Function     // per-node routine: waits for ready/cancel, calls the callback
-	OnComplete   *ssa.Function     // records a completion, releases dependants
-	StartNode    *ssa.Function     // sends `ready`
-	CancelNode   *ssa.Function     // closes `cancel`
+	Walk         *ssa.Function // spawns one routine per node
+	Routine      *ssa.Function // per-node routine: waits for ready/cancel, calls the callback
+	OnComplete   *ssa.Function // records a completion, releases dependants
+	StartNode    *ssa.Function // sends `ready`
+	CancelNode   *ssa.Function // closes `cancel`
 	CallbackCall ssa.CallInstruction
 	Spawns       []*ssa.Go // go Routine(...)
 }
